@@ -172,7 +172,7 @@ fn run_inner(spec: &WorldSpec, ops: &[COp], resolutions: &[bool], ctx: &mut Ctx,
 			out.foreign = Some(("C10".into(), f.oracle));
 			return Ok(out);
 		}
-		fo.step(sim)?;
+		fo.step(sim).map_err(|f| fo.qualify_lost_commitment(sim, f))?;
 		if let Err(f) = co.step(sim) {
 			if debug_foreign {
 				return Err(f);
@@ -187,7 +187,7 @@ fn run_inner(spec: &WorldSpec, ops: &[COp], resolutions: &[bool], ctx: &mut Ctx,
 	let (quiet, mined) = sim.c02_settle(spec.deferred, resolutions, 700);
 	out.quiet = quiet;
 	out.mined = mined;
-	fo.step(sim)?;
+	fo.step(sim).map_err(|f| fo.qualify_lost_commitment(sim, f))?;
 	if let Err(f) = co.step(sim) {
 		if debug_foreign {
 			return Err(f);
@@ -202,7 +202,7 @@ fn run_inner(spec: &WorldSpec, ops: &[COp], resolutions: &[bool], ctx: &mut Ctx,
 		}
 	}
 	if quiet {
-		fo.finish(sim, spec)?;
+		fo.finish(sim, spec).map_err(|f| fo.qualify_lost_commitment(sim, f))?;
 	}
 	out.stats = fo.stats.clone();
 	out.durability_checks = fo.durability_checks;
@@ -347,10 +347,18 @@ fn crash_strat() -> impl Strategy<Value = CrashCase> {
 			(any::<u16>(), proptest::bool::weighted(0.8), any::<bool>(), 0u8..4, proptest::bool::weighted(0.9)),
 			(1u8..5, 3u8..10, any::<bool>()),
 			any::<u16>(),
+			// half of those flows carry a single payment (then the closed channel's monitor has nothing else
+			// pending and can become fully resolved) and skip the off-chain claim that otherwise opens the flow
+			any::<bool>(),
 		),
 	)
-		.prop_map(|(mut spec, mut setup, (pay, k, then), mut steps, (all_points, points), snaps, landed, resolutions, (onchain_tail, (cpay, downstream, by_b, blocks, claim), (m1, m2, reverse), async_chan))| {
+		.prop_map(|(mut spec, mut setup, (pay, k, then), mut steps, (all_points, points), snaps, landed, resolutions, (onchain_tail, (cpay, downstream, by_b, blocks, claim), (m1, m2, reverse), async_chan, solo))| {
+			let solo = onchain_tail && solo;
 			if onchain_tail {
+				if solo {
+					setup.retain(|op| !matches!(op, COp::FwdReady(_)));
+				}
+				setup.insert(0, COp::ChainSyncAsyncB);
 				let keep = steps.len().min(8);
 				let mut tail: Vec<COp> = steps.drain(..keep).collect();
 				let cut = tail.len() / 2;
@@ -372,7 +380,9 @@ fn crash_strat() -> impl Strategy<Value = CrashCase> {
 			}
 			setup.push(COp::FwdReady(FwdSend { route: pay, amt: FwdAmt::Base(Amt::Abs(6_000_000)), fee_adj: 0, delta_adj: 0, final_delta: 70 }));
 			setup.push(COp::SnapshotB);
-			steps.insert(0, COp::ClaimThen { pay, k, then });
+			if !solo {
+				steps.insert(0, COp::ClaimThen { pay, k, then });
+			}
 			CrashCase { spec, setup, steps, all_points, points, snaps, landed, resolutions }
 		})
 }
